@@ -111,7 +111,9 @@ fn run_generate(
 
         for path in possible_paths {
             if path.exists() {
-                match GenerateConfig::from_tauri_config(&path) {
+                // Validation happens below, on the effective configuration: a file value
+                // that a command-line flag overrides must not discard the rest of the file
+                match GenerateConfig::from_tauri_config_unvalidated(&path) {
                     Ok(Some(loaded_config)) => {
                         config = loaded_config;
                         config_loaded = true;
